@@ -30,6 +30,11 @@ def _hook(event, args):
         p = os.fsdecode(args[0])
         if p.endswith((".fb", ".npz")) and args[1] in ("r", "rb", 0, None, "rb+"):
             OPENS[0] += 1
+            if SPY.get("slow_path") == p and not SPY.get("slow_done"):
+                # one slow shard: the thread that reads this file is held up (head-of-line blocking for the ordered readers)
+                SPY["slow_done"] = True
+                import time as _t
+                _t.sleep(SPY.get("slow_s", 1.0))
 
 
 sys.addaudithook(_hook)
@@ -132,6 +137,10 @@ def iterate_ds(ds, r):
     iface = r["iface"]
     take = r.get("take")
     out = []
+    SPY["slow_path"], SPY["slow_done"] = None, False
+    if r.get("slow_first"):
+        SPY["slow_path"] = str(ds.shard_paths_dataset(split=split)[0])
+        SPY["slow_s"] = float(r["slow_first"])
 
     delay = r.get("delay", 0)
     opened = []
